@@ -723,8 +723,11 @@ class Evaluator:
         if isinstance(op, ast.Add):
             if a[0] in ("tuple", "list") and b[0] == a[0]:
                 return (a[0], a[1] + b[1])
-            if a[0] in ("const", "fstr") or b[0] in ("const", "fstr") or a[0] in ("tuple", "list") or b[0] in ("tuple", "list"):
-                return ("op", "concat", (a, b))
+            def _strish(x):
+                return x[0] in ("const", "fstr", "tuple", "list") or (x[0] == "op" and x[1] == "concat")
+            if _strish(a) or _strish(b):
+                parts = (a[2] if (a[0] == "op" and a[1] == "concat") else (a,)) + (b[2] if (b[0] == "op" and b[1] == "concat") else (b,))
+                return ("op", "concat", tuple(parts))
             return add(a, b)
         if isinstance(op, ast.Sub):
             return sub(a, b)
